@@ -40,7 +40,8 @@ CFG = dict(
              "to GET /refs/, the first JSON answer, the answer of the packfile exchange carrying the j-th commit for every j "
              "(and one past the end) - as a connection abort (panic(http.ErrAbortHandler)) and as an HTTP/2 stream reset "
              "(TLS test server; fetch.Fetch retries), for fetch (96) and push (48); PERSISTENT FAULTS (16): every packfile answer of upload-pack cut inside its last object / "
-             "lost by an HTTP/2 reset on EVERY attempt, bounded by the reference server's watchdog (40 requests); SHALLOW "
+             "lost by an HTTP/2 reset on EVERY attempt: the fetch must give up with an error after at most 5 upload-pack "
+             "exchanges (maxFetchAttempts; the reference server also has an 80-request watchdog) and write no ref; SHALLOW "
              "repositories: push from a local side that lacks the tables of its older commits (last 1/2 tables kept) to a "
              "remote holding nothing / c0 / c0..c1, the remote-tracking ref the history came through still there / renamed "
              "/ gone, packfile size 1/default (36): refused, or everything that travels carries its table; fetch into a "
